@@ -55,4 +55,9 @@ def units(ctx):
     from contracts import evalglue as _eg
     from vlib.pyvc.unit import contract_unit as _cu
     us += [_cu(c, world_setup=_eg.setup_nodes) for c in _eg.node_contracts()]
+    from contracts import colls3 as _c3
+    from vlib.pyvc.unit import contract_unit as _cu3
+    us += [_cu3(c, world_setup=_c3.setup)
+           for c in _c3.predicate_contracts() + _c3.wrapper_contracts()
+           if 'C11' in c.serves]
     return us
